@@ -22,6 +22,11 @@ BOXV = [[4.0, 0.0, 0.0], [1.0, 5.0, 0.0], [0.5, 0.25, 6.0]]
 BOXO = [1.0, -2.0, 0.5]
 
 
+def _h(*x):
+    import zlib
+    return zlib.crc32(json.dumps(x, default=str).encode()) >> 4
+
+
 def conc(k, codes):
     """abstract codes (list) -> real array (n,)+shape"""
     c = np.asarray(codes, dtype=DT[k])
@@ -55,7 +60,17 @@ def build_atoms(am, ob):
 
 def proj_atoms(a):
     keys = list(a.prop())
-    return {'n': int(a.natoms), 'keys': keys, 'col': {k: proj_col(k, a.view[k]) for k in keys}}
+    col = {}
+    for k in keys:
+        col[k] = proj_col(k, a.view[k])
+        # every accessor shows the same column: the view, the attribute of the same name, the copying getter
+        try:
+            same = np.array_equal(np.asarray(getattr(a, k)), np.asarray(a.view[k])) and np.array_equal(np.asarray(a.prop(k)), np.asarray(a.view[k]))
+        except Exception:
+            same = False
+        if not same:
+            col[k] = 'accessors_disagree(view / attribute / prop)'
+    return {'n': int(a.natoms), 'keys': keys, 'col': col}
 
 
 def none(x):
@@ -155,6 +170,8 @@ class Replayer:
                 v = conc(k, [a['c']])
             elif a['mode'] == 'full':
                 v = conc(k, rows)
+                if DT[k] is int and k != 'atype' and _h(k, rows) % 2 == 0:
+                    v = v.astype(float)          # the same whole-number values handed over as floats (a whole-column assignment of another dtype kind)
             else:
                 v = conc(k, list(rows) + [1])
             if a['via'] == 'view':
@@ -216,7 +233,10 @@ class Replayer:
             if a['scale']:
                 add = deepcopy(add)
                 add.pos[:] = s.box.position_cartesian_to_relative(add.pos)
+            before = {k_: np.array(add.view[k_]) for k_ in add.prop()}
             self.syss[a['dst']] = s.atoms_extend(add, scale=a['scale'], symbols=sym)
+            if any(not np.array_equal(before[k_], add.view[k_]) for k_ in before) or list(add.prop()) != list(before):
+                return 'atoms_extend(scale=%s) modified the Atoms object passed to it' % a['scale']
         elif act == 'sysextendn':
             self.syss[a['dst']] = self.syss[a['s']].atoms_extend(a['m'])
         elif act == 'syspropget':
